@@ -12,6 +12,8 @@ from typing import Dict
 from application_properties import ApplicationProperties
 from typing_extensions import override
 
+from pymarkdown.general import verif_probe
+
 
 class ApplicationResult(Enum):
     """
@@ -142,6 +144,13 @@ class ReturnCodeHelper:
         )
         scheme_class = ReturnCodeHelper.__available_schemes[scheme_name]
         return_code = scheme_class.apply_scheme(application_result)
+        if verif_probe.ENABLED:
+            verif_probe.emit(
+                "exit",
+                category=application_result.name,
+                scheme=scheme_name,
+                code=return_code,
+            )
         sys.exit(return_code)
 
     @staticmethod
